@@ -297,8 +297,75 @@ let print_gres = function
   | GvPanic -> "panic"
   | GvNoDraw -> "nodraw"
 
+
+(* ---- templater cases (grammar: harness/cmd/hC15/tmpl.go) ---- *)
+let rec tval_of (v : val0) : tval =
+  match v with
+  | VStr b -> TStr b
+  | VOpaque -> TNil                       (* the tmpl generator only writes o3 = nil *)
+  | VMap m -> TMap (List.map (fun (k, x) -> (k, tval_of x)) m)
+  | VList l -> TList (List.map tval_of l)
+
+let parse_tsrc (t : string) : tsrc =
+  if t = "E" then TOk []
+  else if t.[0] = 'U' then TUnparsable
+  else TOk (List.map (fun p ->
+      let rest = String.sub p 1 (String.length p - 1) in
+      match p.[0] with
+      | 'L' -> PLit (bytes_of_hex rest)
+      | 'C' -> PChain (if rest = "" then [] else List.map bytes_of_hex (String.split_on_char '/' rest))
+      | 'F' ->
+          let i = String.index rest '~' in
+          let r = String.sub rest (i + 1) (String.length rest - i - 1) in
+          PFunc (if r = "!" then None else Some (bytes_of_hex r))
+      | _ -> failwith "piece") (String.split_on_char '_' t))
+
+let parse_tcall (trees : tval array) (c : string) : tcall =
+  match String.split_on_char ':' c with
+  | [ti; scen; step; url; hdrs; body] ->
+      { tc_scen = bytes_of_hex scen; tc_step = bytes_of_hex step;
+        tc_parts = { pa_url = parse_tsrc url;
+                     pa_hdrs = List.map (fun h ->
+                         let i = String.index h '=' in
+                         (bytes_of_hex (String.sub h 0 i), parse_tsrc (String.sub h (i + 1) (String.length h - i - 1))))
+                         (split_on '+' hdrs);
+                     pa_body = (if body = "-" then None else Some (parse_tsrc body)) };
+        tc_data = trees.(int_of_string ti) }
+  | _ -> failwith "tcall"
+
+let print_ap (r : ap_res) : string =
+  match r with
+  | ApErr (AeParseUrl | AeExecUrl) -> "err:u"
+  | ApErr AeHdr -> "err:h"
+  | ApErr (AeParseBody | AeExecBody) -> "err:b"
+  | ApOk rp ->
+      let hs = if rp.rp_hdrs = [] then "~"
+        else String.concat "+" (List.sort compare (List.map (fun (k, v) -> hex_of_bytes k ^ "=" ^ hex_of_bytes v) rp.rp_hdrs)) in
+      "ok:" ^ hex_of_bytes rp.rp_url ^ ":" ^ hs ^ ":" ^ (match rp.rp_body with Some b -> hex_of_bytes b | None -> "~")
+
+(* the description fixes the templates of a step (hypothesis of C15_render_own_data) *)
+let tcalls_consistent (calls : tcall list) : bool =
+  List.for_all (fun x -> List.for_all (fun y ->
+      x.tc_scen <> y.tc_scen || x.tc_step <> y.tc_step || x.tc_parts = y.tc_parts) calls) calls
+  && List.for_all (fun x -> let ks = List.map fst x.tc_parts.pa_hdrs in List.length (uniq ks) = List.length ks) calls
+
 let predict (c : string) (obs : string) : string * string * bool =
   match split_blank c with
+  | ["tmpl"; kind; trees; calls] ->
+      let html = (kind = "h") in
+      let trees = Array.of_list (List.map (fun t -> tval_of (parse_tree t)) (String.split_on_char ';' trees)) in
+      let calls = List.map (parse_tcall trees) (String.split_on_char ';' calls) in
+      let p = String.concat " " (List.map print_ap (run_applies html [] calls)) in
+      if tcalls_consistent calls then begin
+        (* specification side (C15_render_own_data): every call rendered from its own templates and data *)
+        let w = List.map print_ap (spec_applies html calls) in
+        let rec after_fail = function
+          | a :: (b :: _ as r) -> (String.length a >= 3 && String.sub a 0 3 = "err" && String.sub b 0 2 = "ok") || after_fail r
+          | _ -> false in
+        (p, verdict (obs = String.concat " " w)
+           "a request part was not rendered from the templates and the variable tree of its own step (URI, header or body differs, or the rendering failed / succeeded against the specification)",
+         after_fail w)
+      end else (p, "ok", false)
   | ["path"; tree; draws; paths] ->
       let t = (match parse_tree tree with VMap m -> m | _ -> failwith "tree: top") in
       let ps = List.map bytes_of_hex (String.split_on_char ',' paths) in
